@@ -363,6 +363,10 @@ def update_parameters(json_object, parameters) -> None:
                         del json_object[key]
                 # set new tensor
                 json_object['tensor'] = parameters[json_object['id']]['tensor']
+                # the checkpoint knows the dtype and kind the tensor had
+                for key in ('dtype', 'nn'):
+                    if key in parameters[json_object['id']]:
+                        json_object[key] = parameters[json_object['id']][key]
         else:
             for value in json_object.values():
                 update_parameters(value, parameters)
